@@ -116,7 +116,11 @@ def generate(spec):
             ops.append({"op": "delete_then_touch", "id": rng.randrange(0, max(1, next_id + 1)), "state": rng.choice(STATES)})
             n_live_est = max(0, n_live_est - 1)
         elif r < 0.63:
-            ops.append({"op": "delete_many", "ids": sorted({rng.randrange(0, max(1, next_id + 2)) for _ in range(rng.choice([2, 3]))})})
+            ops.append({"op": "delete_many", "ids": sorted({rng.randrange(0, max(1, next_id + 2)) for _ in range(rng.choice([2, 3]))}),
+                        "as": rng.choice(["list", "list", "tuple", "set", "frozenset", "keys", "range"])})
+            if ops[-1]["as"] == "range":
+                lo_ = rng.randrange(0, max(1, next_id + 1))
+                ops[-1]["ids"] = list(range(lo_, lo_ + rng.choice([2, 3])))       # (a range is contiguous)
             n_live_est = max(0, n_live_est - 2)
         elif r < 0.66:
             ops.append({"op": rng.choice(["delete_type", "delete_each_of_type"]), "type": rng.choice(["a", "b"])})
